@@ -91,6 +91,7 @@ def ng(v):
 
 
 AGG_ROWS = [(k, v) for k in 'abc' for v in (1, 2, 3)]
+AGG_ROWS_ZERO = [(k, v) for k in ('', 'a') for v in (0, -1, 2)]      # "including ... zero": values and keys that are falsy in Python
 
 
 def k_smallest_ok(got, rows, K, largest=False):
@@ -230,8 +231,8 @@ def work_agg(name, n, shard, nsh):
     return dict(stats=stats, viol=viol)
   db = impl.Db({'Rows': ['col0', 'col1']})
   outcomes = set(); idx = 0
-  for ln in range(1, n + 1):
-    for seq in itertools.product(AGG_ROWS, repeat=ln):
+  for alphabet, ln in [(AGG_ROWS, ln) for ln in range(1, n + 1)] + [(AGG_ROWS_ZERO, ln) for ln in range(1, min(n, 5))]:
+    for seq in itertools.product(alphabet, repeat=ln):
       idx += 1
       if idx % nsh != shard: continue
       rows = list(seq)
